@@ -9,12 +9,15 @@
       carries all the labels — under DagInv (C12), i.e. on every circuit reachable by edits;
     * the emitter count is the number of emitter input nodes;
     * for every circuit built by `add` from an operation list, the emitter–emitter CNOT count and the measurement
-      count computed through the label index equal the counts defined on the operation list.
+      count computed through the label index equal the counts defined on the operation list;
+    * `reg_gate_history` returns the register's wire (on every circuit satisfying DagInv);
+    * `register_depth` — the un-memoised `_max_depth` recursion, with the fuel the model gives it — equals the ASAP
+      layer of the last operation on each register, for every circuit built by `add`.
   Stated and kept as `def …_statement` (evaluated on every input of the correspondence run against the independent
-  op-list computation, not proved): depth / register depth = ASAP layering, unitary count, maximum emitter depth,
-  reset depth, effective depth (these go through `unwrap_nodes`, `reg_gate_history` and the `_max_depth` recursion).
+  op-list computation, not proved): depth (networkx longest path) = largest ASAP layer, unitary count, maximum emitter
+  depth, reset depth, effective depth (these go through `unwrap_nodes` on a copy).
 -/
-import GraphiqModel.Proofs.Metrics
+import GraphiqModel.Proofs.Depth
 namespace Graphiq.C18
 open Graphiq Graphiq.Dag Graphiq.Metrics
 
@@ -67,7 +70,7 @@ theorem cnot_count_eq_spec (ne np nc : Nat) (seq : List Op) (hseq : PlainSeq seq
         simp [hk, this]
       · simp [hk]
     rw [h1]
-    simp only [List.all_cons, List.all_nil, Bool.and_true, List.contains_iff_mem]
+    simp only [List.all_cons, List.all_nil, Bool.and_true]
     by_cases h2 : "Emitter-Emitter" ∈ op.indexKeys
     · have : "CNOT" ∉ op.indexKeys := fun h => hn ⟨h2, h⟩
       simp [h2, this]
@@ -98,14 +101,41 @@ theorem built_circuit_holds_op_list (ne np nc : Nat) (seq : List Op) (hwf : ∀ 
     `dag_longest_path_length`: number of edges of a longest directed path) -/
 theorem circuit_depth_is_longest_path_minus_one (L : Nat) : Metrics.circuitDepthWith L = (L : Int) - 1 := rfl
 
-/-! ## 3. the remaining metrics: full statements (not proved; compared on every correspondence input) -/
+/-! ## 3. wires and register depth -/
 
-/-- depth and per-register depth are the ASAP layering of the operation list -/
+/-- **`reg_gate_history(reg, reg_type)` = the wire.**  On every circuit satisfying DagInv the node list returned for an
+    existing register is `in, n₁, …, n_m, out` where `n₁ … n_m` is the duplicate-free list of operation nodes whose
+    consecutive pairs are exactly the edges keyed by the register (for a quantum register: exactly the operations
+    acting on it, in wire order) — so `len(history) - 2`, the quantity `CircuitMaxEmitDepth` maximises, is the number
+    of operations on the emitter. -/
+theorem reg_gate_history_is_wire {c : Dag} (h : DagInv c) :
+    ∃ P : Reg → List NodeId, (∀ e, e ∈ c.edges ↔ Consec (P e.key) e.src e.dst) ∧
+      (∀ i op, (NodeId.op i, op) ∈ c.nodes → ∀ k, k.ty ≠ .c → (NodeId.op i ∈ P k ↔ k ∈ op.qregs)) ∧
+      ∀ r, r.idx < c.regs r.ty → c.regGateHistory r = .ok (P r) := by
+  obtain ⟨P, g⟩ := h
+  exact ⟨P, g.inv.edges_iff, g.mem.mem_q, fun r hl => regGateHistory_eq_wire g.inv hl⟩
+
+/-- **`register_depth` = ASAP layering.**  For every circuit built by `add` from any plain operation list, and every
+    register type, `calculate_reg_depth` — i.e. the un-memoised recursion `_max_depth(out)` run with the fuel the model
+    gives it — returns for each register the ASAP layer of the last operation acting on it (0 if none), computed on
+    the operation list alone. -/
+theorem register_depth_eq_asap (ne np nc : Nat) (seq : List Op) (hseq : PlainSeq seq) (hok : (build ne np nc seq).2 = none)
+    (t : RegType) :
+    (build ne np nc seq).1.calculateRegDepth t =
+      .ok ((List.range ((build ne np nc seq).1.regs t)).map (fun i => (Spec.regDepth seq ⟨t, i⟩ : Int))) :=
+  calculateRegDepth_eq_spec ne np nc seq hseq hok t
+
+/-- the same for `_max_depth` of any node: it is the relation `HasDepth` (inputs −1, otherwise one more than the
+    deepest source of an in-edge), and the recursion terminates with fuel `depth + 2` -/
+theorem max_depth_recursion_spec {c : Dag} {n : NodeId} {d : Int} (h : HasDepth c n d) (f : Nat) (hf : d + 2 ≤ (f : Int)) :
+    c.maxDepth f n = .ok d := maxDepth_of_hasDepth h f hf
+
+/-! ## 4. the remaining metrics: full statements (not proved; compared on every correspondence input) -/
+
+/-- depth (networkx longest path − 1) is the largest ASAP layer of the operation list -/
 def depth_eq_spec_statement : Prop :=
   ∀ ne np nc seq, PlainSeq seq → (build ne np nc seq).2 = none → 0 < ne + np + nc →
-    Metrics.circuitDepth (build ne np nc seq).1 = (Spec.depth seq : Int) ∧
-    ∀ t i, i < (build ne np nc seq).1.regs t →
-      (build ne np nc seq).1.maxDepth ((build ne np nc seq).1.nodes.length + 1) (.out ⟨t, i⟩) = .ok (Spec.regDepth seq ⟨t, i⟩ : Int)
+    Metrics.circuitDepth (build ne np nc seq).1 = (Spec.depth seq : Int)
 
 def unitary_count_eq_spec_statement : Prop :=
   ∀ ne np nc seq, PlainSeq seq → (build ne np nc seq).2 = none →
@@ -117,7 +147,7 @@ def emitter_depths_eq_spec_statement : Prop :=
     Metrics.maxEmitResetDepth (build ne np nc seq).1 = Spec.maxEmitResetDepth (build ne np nc seq).1.nE seq ∧
     Metrics.maxEmitEffDepth (build ne np nc seq).1 = Spec.maxEmitEffDepth (build ne np nc seq).1.nE seq
 
-/-! ## 4. non-vacuity -/
+/-! ## 5. non-vacuity -/
 
 def cnotEE : Op := ⟨.cnot, [⟨.e, 0⟩, ⟨.e, 1⟩], [], ["two-qubit"], []⟩
 def hP0 : Op := Op.oneQubit .hadamard ⟨.p, 0⟩
